@@ -125,9 +125,12 @@ def evaluate(case):
     real_labels, oracle_labels = _labels(case, ma, mb, a, b)
     from stereomolgraph.algorithms.isomorphism import vf2pp_all_isomorphisms
     with guard(f"C05/{cls}/{mode}/enumerate"):
-        got = [dict(f) for f in vf2pp_all_isomorphisms(
+        # the natural usage: materialise the generator first (a yielded
+        # mapping must not be mutated by the continuing search)
+        got = list(vf2pp_all_isomorphisms(
             a, b, atom_labels=real_labels, stereo=stereo,
-            stereo_change=changes, subgraph=False)]
+            stereo_change=changes, subgraph=False))
+        got = [dict(f) for f in got]
     stats = {}
     want = iso.all_mappings(ma, mb, labels=oracle_labels, roles=True,
                             stereo=stereo, changes=changes, stats=stats)
@@ -237,7 +240,8 @@ def check_large(ctx, case):
     name = f"{case['name']}{case['n']}"
     from stereomolgraph.algorithms.isomorphism import vf2pp_all_isomorphisms
     with guard(f"C05/{m.cls}/large/{name}/enumerate"):
-        got = [dict(f) for f in vf2pp_all_isomorphisms(g, g)]
+        got = list(vf2pp_all_isomorphisms(g, g))
+        got = [dict(f) for f in got]
     keys = [tuple(sorted(f.items())) for f in got]
     for f in got:
         if not iso.is_valid(m, m, f, stereo=False, changes=False):
